@@ -96,8 +96,8 @@ CLAIMED = {
              "and the awaited conditions always are RECEIVABLE on an empty forwarder's source / SENDABLE on a full one's destination "
              "(C20_awaits_what_it_needs). Tie: the real xrelay.c over scripted XCM calls vs the compiled model; the real relay "
              "(rserver.c + xrelay.c) in a thread with concurrent connections, all transport pairs, back-pressure, fault injection.",
-        note="End-to-end transparency additionally rests on C01-C04 of the two legs. Known finding F-20a: messages accepted but not yet "
-             "flushed on the other leg are lost when the source closes (the model's `passed` is 'accepted by xcm_send', not 'flushed'). "
+        note="End-to-end transparency additionally rests on C01-C04 of the two legs. Found and fixed here: F-20a (bc0067c; messages accepted but not yet flushed on the other leg were lost when the source "
+             "closed - the relay now drains before closing, C20_close_after_flush). "
              "Liveness of the libevent loop and real-time bounds are exercised (sys_relay), not proved. Axioms: propext, Classical.choice, Quot.sound.",
         technique="Lean 4 invariant proofs over unbounded event/answer sequences + differential correspondence on the real xrelay.c + system runs of the real relay",
         ref="DESIGN.md §5 C20"),
@@ -140,7 +140,10 @@ CLAIMED = {
              "C07_eproto_sticky). Tie: real xcm_tp_tcp.c/xcm_tp_tls.c under ASan+UBSan vs the model on hostile streams "
              "(len 0/65536/2^31/2^32-1, truncated, random, plain text) in four segmentations, plus a reference-decoder "
              "monitor on the implementation's output.",
-        note="Garbage before/during the TLS handshake (OpenSSL + xcm_tp_btls.c) is not inside this model. C memory "
+        note="TLS: garbage during the handshake or inside the record stream makes the meeting call report EPROTO, moves no application "
+             "data and fires no assertion of xcm_tp_btls.c whatever OpenSSL answers (C07_btls_handshake_garbage, C07_btls_record_garbage, "
+             "C07_btls_no_abort; tie unit_btls), and sys_tls sends real garbage to live TLS sockets next to a bystander connection "
+             "(OpenSSL's own parsing is the environment). C memory "
              "safety itself is only covered by the model's explicit abort outcome and the sanitizer runs of the "
              "correspondence (sampled). Axioms: propext, Classical.choice, Quot.sound.",
         technique="Lean 4 invariant proof (arbitrary byte stream) + differential correspondence under ASan/UBSan",
@@ -166,24 +169,33 @@ CLAIMED = {
              "from_lower>=to_app (C17_order); refused sends count nothing (C17_refused_counts_nothing); flushed sender "
              "and fully-read receiver agree (C17_idle_agreement). Tie: the counters (via the transport's get_cnt op) are "
              "part of every compared output line of unit_framing on tcp and tls.",
-        note="ux/uxf counters: C17_ux_* theorems + unit_ux (this is where F-17a was found and fixed). btcp byte counters are part of C02's compared lines; btls and utls delegation are not yet in the model. Sampled "
+        note="ux/uxf counters: C17_ux_* theorems + unit_ux (this is where F-17a was found and fixed). btcp and btls byte counters are part of C02's compared lines and, for btls, of its invariant (counters = lengths of the accepted / written / delivered streams, C02_btls_accepted_is_written_plus_retained); utls delegates to its sub-socket. Sampled "
              "correspondence. Axioms: propext, Classical.choice, Quot.sound.",
         technique="Lean 4 invariant proofs over unbounded histories + differential correspondence",
         ref="DESIGN.md §5 C17"),
     "C02": dict(
-        text="btcp only. Lean 4 proofs on a model of xcm_tp_btcp.c's connection machine, for every kernel behaviour: for "
-             "len>0 send returns 1..len or -1 (C02_rc_range), receive never exceeds capacity (C02_capacity), the bytes "
-             "handed to the kernel are exactly the concatenation of the accepted ranges over any history (inv_run), a "
-             "failed call (EAGAIN included, any state) hands nothing down (C02_failed_call_no_trace), hence under the "
-             "kernel's FIFO contract the received bytes are a prefix of / equal to the accepted bytes (C02_btcp_prefix). "
-             "Tie: the real xcm_tp_btcp.c #included with scripted send()/recv()/resolver/tconnect answers vs the model, "
-             "plus a wire monitor.",
-        note="btls is NOT claimed: the property's last clause is expected to be false for it (OpenSSL pending-record "
-             "retry, defect candidate F-02a, not yet re-established by a check in this round) and the Btls model is "
-             "not built yet. Blocking mode: C02_bsend_accounting on the Api model of xcm.c (bytestream_bsend) tied by unit_api. "
-             "K-stream is an assumption.",
-        technique="Lean 4 invariant proof over unbounded histories + differential correspondence (btcp)",
-        ref="DESIGN.md §5 C02"),
+        text="Lean 4 proofs for both byte-stream transports. btcp (model of xcm_tp_btcp.c's connection machine), for every kernel "
+             "behaviour: for len>0 send returns 1..len or -1 (C02_rc_range), receive never exceeds capacity (C02_capacity), the bytes "
+             "handed to the kernel are exactly the concatenation of the accepted ranges over any history (inv_run), a failed call "
+             "(EAGAIN included, any state) hands nothing down (C02_failed_call_no_trace), hence under the kernel's FIFO contract the "
+             "received bytes are a prefix of / equal to the accepted bytes (C02_btcp_prefix). btls (model of xcm_tp_btls.c with its "
+             "retained-output buffer), for every history of calls and every answer OpenSSL can give: the accepted stream equals the "
+             "bytes SSL_write took followed by the bytes XCM retains, in order, and the four counters are the lengths of these streams "
+             "(C02_btls_accepted_is_written_plus_retained); xcm_send returns 1..len and appends exactly that prefix of this call's "
+             "buffer, a failing call appends nothing (C02_btls_send_accepts_prefix); a new buffer is offered to OpenSSL only when "
+             "nothing is retained, so an incomplete SSL_write is always repeated with the same bytes whatever the application offers "
+             "next (C02_btls_retry_discipline); receive is bounded by capacity and leaves the output streams alone (C02_btls_capacity, "
+             "C02_btls_receive_keeps_accepted). Tie: the real xcm_tp_btcp.c / xcm_tp_btls.c #included with scripted kernel / OpenSSL "
+             "answers vs the compiled models line by line, plus sys_stream: live btcp and btls connections under back-pressure with "
+             "four retry policies after a refusal (same, longer, different, shorter data) and the receiver's stream compared byte for "
+             "byte with the accepted one.",
+        note="Found here and fixed in /repo (9630e6f): F-02a/F-02b (btls reported EAGAIN after OpenSSL had consumed part of the buffer; "
+             "a retry with other data corrupted the stream or killed the connection). OpenSSL delivering in order what SSL_write "
+             "accepted (K-openssl-stream) and the kernel's FIFO (K-stream) are assumptions, probed end to end by sys_stream. "
+             "Blocking mode: C02_bsend_accounting on the Api model of xcm.c (bytestream_bsend) tied by unit_api. "
+             "Axioms: propext, Classical.choice, Quot.sound.",
+        technique="Lean 4 invariant proofs over unbounded histories (btcp, btls) + differential correspondence + live back-pressure runs",
+        ref="DESIGN.md §5 C02, §9"),
     "C06": dict(
         category="proof",
         text="Lean 4 proofs: in the btcp connection machine closed and bad(e) are absorbing under every later operation "
@@ -192,10 +204,15 @@ CLAIMED = {
              "errno (C06_discoverer_reports), establishment failures surface their errno (C06_establish_failure); at the "
              "framing layer the lower layer's EOF/errno is passed up unchanged and repeatably, EPROTO is sticky, and no "
              "partially sent message is ever delivered (C06_framing_passes_up, C07_eproto_sticky, C01_never_partial). "
+             "btls: closed and bad(e) are absorbing (C06_btls_sticky), closed => receive 0 / send,finish EPIPE, bad => the same errno "
+             "and no further OpenSSL call (C06_btls_closed_behaviour, C06_btls_bad_same_errno), whichever of send / receive / finish - "
+             "in its handshake step, its flush of retained output or its own SSL_write/SSL_read - meets the failure reports exactly the "
+             "errno that becomes sticky (C06_btls_*_discovers), and process_ssl_event maps protocol errors to EPROTO, orderly or early "
+             "closes to closed and any other errno to itself (C06_btls_classification). "
              "Tie: exhaustive fault enumeration (every errno x every first observer x every start state) on the real "
-             "xcm_tp_btcp.c and xcm_tp_tcp.c/xcm_tp_tls.c vs the model.",
-        note="Not inside this check: btls (process_ssl_event), ux, which errno tconnect.c selects for a failed "
-             "multi-address connect (C13), raw-socket resets at the kernel level. Axioms: propext, Classical.choice, "
+             "xcm_tp_btcp.c, xcm_tp_tcp.c/xcm_tp_tls.c and xcm_tp_btls.c (every OpenSSL event) vs the models.",
+        note="Found and fixed here: F-06a (btls_send reported EAGAIN for a handshake failure it discovered itself). Not inside this "
+             "check: which errno tconnect.c selects for a failed multi-address connect (C13). Axioms: propext, Classical.choice, "
              "Quot.sound.",
         technique="Lean 4 proofs (absorbing states, case analysis) + exhaustive fault enumeration correspondence",
         ref="DESIGN.md §5 C06"),
@@ -310,8 +327,9 @@ CLAIMED = {
              "sys_quiet measures the property itself on live connections of all seven transports.",
         note="'one stable descriptor' has no theorem (the model has no field that could change); it is sampled on the "
              "implementation after every operation. The composition 'idle framing/TLS connection => the lower transport's "
-             "condition is 0' is proved for tcp/tls framing by tcp_update (C04 file) and observed for btls (OpenSSL wants) by "
-             "sys_quiet only. K-epoll is an assumption. Axioms: propext, Classical.choice, Quot.sound.",
+             "condition is 0' is proved for tcp/tls framing by tcp_update (C04 file) and for btls by the C16_btls_* theorems on the "
+             "conn_update model (idle and nothing retained -> silent; retained output -> only what its flush needs; bell only for a "
+             "stated reason), tied by unit_btls's exhaustive conn_update table. Found and fixed here: F-16a (9630e6f). K-epoll is an assumption. Axioms: propext, Classical.choice, Quot.sound.",
         technique="Lean 4 invariant proof by induction over reachable xpoll states + differential correspondence against the real kernel + live-socket measurement",
         ref="DESIGN.md §5 C16"),
     "C04": dict(
@@ -330,8 +348,10 @@ CLAIMED = {
              "below XCM and OpenSSL return EAGAIN/short counts at random, with a stall watchdog; the blocking forms in threads.",
         note="proof-partial: (1) liveness over real time needs K-epoll and K-progress (assumptions) and is measured by sys_loop "
              "(watchdog 4 s / 40 s), not proved; (2) the composition of the per-layer invariants into one end-to-end theorem "
-             "(Link-level 'every accepted message is eventually delivered') is not mechanised; (3) btls (OpenSSL wants/pending) "
-             "and the resolver's own descriptors are covered by sys_loop only.",
+             "(Link-level 'every accepted message is eventually delivered') is not mechanised; (3) btls: the per-layer invariant is proved on the conn_update model "
+             "(C04_btls_handshake_watched, C04_btls_waiter_has_source, C04_btls_retained_output_watched, C04_btls_terminal_rings, "
+             "C04_btls_pending_rings) and xcm_tp.c's re-evaluation after every call on the Tp model (C04_registrations_refreshed); "
+             "the resolver's own descriptors are covered by sys_loop only.",
         technique="Lean 4 per-layer wake-up invariants and decreasing measures + differential correspondence + fault-injected live event loops with a stall watchdog",
         ref="DESIGN.md §5 C04"),
 }
